@@ -1,5 +1,6 @@
 import PPProofs.Props.C16
 import PPProofs.Props.C16Left
+import PPProofs.Props.C16Gen
 #print axioms PP.Infix.infix_roundtrip_partial
 #print axioms PP.Infix.goal_all
 #print axioms PP.Infix.lift_all
@@ -20,3 +21,18 @@ import PPProofs.Props.C16Left
 #print axioms PP.Infix.Left.goal_paren
 #print axioms PP.Infix.Left.goal_pre
 #print axioms PP.Infix.Left.goal_binR
+#print axioms PP.Infix.infix_roundtrip_general_partial
+#print axioms PP.Infix.infix_roundtrip_general_covers_left
+#print axioms PP.Infix.infix_roundtrip_post_partial
+#print axioms PP.Infix.Gen.goal_all
+#print axioms PP.Infix.Gen.lift_all
+#print axioms PP.Infix.Gen.goal_post
+#print axioms PP.Infix.Gen.post_parse
+#print axioms PP.Infix.Gen.p_nest
+#print axioms PP.Infix.Gen.goal_binL
+#print axioms PP.Infix.Gen.chain_parse
+#print axioms PP.Infix.Gen.goal_lift
+#print axioms PP.Infix.Gen.goal_atom
+#print axioms PP.Infix.Gen.goal_paren
+#print axioms PP.Infix.Gen.goal_pre
+#print axioms PP.Infix.Gen.goal_binR
